@@ -21,6 +21,9 @@ pub struct Shared {
     pub end: EndMode,
     /// transport errors carry kind ConnectionAborted (like ECONNABORTED) instead of a kind the library never produces
     pub abort_kind: bool,
+    /// reads answered with end-of-file so far; a task that keeps reading at EOF is spinning (guard: panic, reported as SPIN)
+    pub eof_reads: usize,
+    pub spun: bool,
     pub rd: VecDeque<Rd>,
     pub wr: VecDeque<Wr>,
     pub fl: VecDeque<Fl>,
@@ -38,7 +41,7 @@ pub struct Shared {
 impl Shared {
     pub fn new(input: &[u8], end: EndMode, rd: Vec<Rd>, wr: Vec<Wr>, fl: Vec<Fl>) -> Arc<Mutex<Shared>> {
         Arc::new(Mutex::new(Shared { input: input.iter().copied().collect(), end, rd: rd.into(), wr: wr.into(), fl: fl.into(), wlog: vec![], events: vec![],
-            auto_wake: false, read_waker: None, waiting_for_input: false, reads: 0, writes: 0, hold: false, abort_kind: false }))
+            auto_wake: false, read_waker: None, waiting_for_input: false, reads: 0, writes: 0, hold: false, abort_kind: false, eof_reads: 0, spun: false }))
     }
     pub fn terr(&self, k: io::ErrorKind) -> io::Error { if self.abort_kind { io::ErrorKind::ConnectionAborted.into() } else { k.into() } }
 }
@@ -57,7 +60,10 @@ impl AsyncRead for MockR {
         if s.input.is_empty() {
             if s.hold { s.events.push(format!("R{cap}:W")); s.read_waker = Some(cx.waker().clone()); s.waiting_for_input = true; return Poll::Pending; }
             return match s.end {
-                EndMode::Eof => { s.events.push(format!("R{cap}:0")); Poll::Ready(Ok(0)) }
+                EndMode::Eof => {
+                    s.eof_reads += 1;
+                    if s.eof_reads > 5000 { s.spun = true; drop(s); panic!("transport: more than 5000 reads answered with end-of-file: the task is spinning"); }
+                    s.events.push(format!("R{cap}:0")); Poll::Ready(Ok(0)) }
                 EndMode::Pend => { s.events.push(format!("R{cap}:W")); s.read_waker = Some(cx.waker().clone()); s.waiting_for_input = true; Poll::Pending }
                 EndMode::Err => { s.events.push(format!("R{cap}:E")); Poll::Ready(Err(s.terr(io::ErrorKind::TimedOut))) }
             };
